@@ -1009,3 +1009,6 @@ TWINS = [
     ("ChildScalar cache created with dict()", HE,
      ("self._ufunc_attrs = {}", "self._ufunc_attrs = dict()")),
 ]
+
+# mutants that re-introduce the repaired defects (apply to the fixed tree)
+MUTANTS = list(MUTANTS) + list(MUTANTS_AFTER_FIX)
